@@ -179,6 +179,163 @@ def r12_2_3(rep: Report, idx: Index, cg: CallGraph) -> None:
                 rep.ok('R12.3', construct, key)
 
 
+class _Unknown(Exception):
+    pass
+
+
+def _pass_counter_by_evaluation(fn, loop, id_stmt, suffix, idx_names, L0, single_def):
+    """The slice of the listing loop that computes the index into the stored periods and the id suffix uses
+    nothing but integer arithmetic over its own locals, constants and len(periods).  It is evaluated here (by
+    this module's own evaluator over the syntax tree - no repository code runs) for n = 1..6 stored periods
+    and 3n+2 iterations: the k-th listed Period must be stored period k mod n with suffix L0 + k div n.
+    n = 1 is the case that separates `index == 0` / `index <= previous` from `index < previous`."""
+    def ev(e, env, n):
+        if isinstance(e, ast.Constant) and isinstance(e.value, (int, bool)):
+            return int(e.value)
+        if isinstance(e, ast.Name):
+            if e.id in env:
+                return env[e.id]
+            raise _Unknown(e.id)
+        if isinstance(e, ast.Call):
+            cn = call_name(e)
+            if cn == 'len' and len(e.args) == 1:
+                return n
+            if cn == 'int' and len(e.args) == 1:
+                return int(ev(e.args[0], env, n))
+            if cn == 'divmod' and len(e.args) == 2:
+                return divmod(ev(e.args[0], env, n), ev(e.args[1], env, n))
+            if cn in ('min', 'max') and e.args:
+                return (min if cn == 'min' else max)(ev(a, env, n) for a in e.args)
+            raise _Unknown(norm(e))
+        if isinstance(e, ast.BinOp):
+            l_, r_ = ev(e.left, env, n), ev(e.right, env, n)
+            ops = {ast.Add: lambda a, b: a + b, ast.Sub: lambda a, b: a - b, ast.Mult: lambda a, b: a * b,
+                   ast.FloorDiv: lambda a, b: a // b, ast.Mod: lambda a, b: a % b}
+            if type(e.op) in ops:
+                return ops[type(e.op)](l_, r_)
+            raise _Unknown(norm(e))
+        if isinstance(e, ast.UnaryOp):
+            v = ev(e.operand, env, n)
+            return (not v) if isinstance(e.op, ast.Not) else (-v if isinstance(e.op, ast.USub) else v)
+        if isinstance(e, ast.BoolOp):
+            vals = [ev(v, env, n) for v in e.values]
+            return all(vals) if isinstance(e.op, ast.And) else any(vals)
+        if isinstance(e, ast.Compare):
+            left = ev(e.left, env, n)
+            for op, c_ in zip(e.ops, e.comparators):
+                right = ev(c_, env, n)
+                ok = {ast.Eq: left == right, ast.NotEq: left != right, ast.Lt: left < right, ast.LtE: left <= right,
+                      ast.Gt: left > right, ast.GtE: left >= right}.get(type(op))
+                if ok is None:
+                    raise _Unknown(norm(e))
+                if not ok:
+                    return False
+                left = right
+            return True
+        if isinstance(e, ast.IfExp):
+            return ev(e.body, env, n) if ev(e.test, env, n) else ev(e.orelse, env, n)
+        raise _Unknown(norm(e))
+
+    # names of the slice: the index, the suffix and everything they are computed from inside the loop
+    want = set(idx_names) | {x.id for x in ast.walk(suffix) if isinstance(x, ast.Name)}
+    for _ in range(4):
+        for st in ast.walk(loop):
+            tg = st.targets if isinstance(st, ast.Assign) else ([st.target] if isinstance(st, (ast.AnnAssign, ast.AugAssign)) else [])
+            names = {x.id for t in tg for x in ast.walk(t) if isinstance(x, ast.Name) and isinstance(t, (ast.Name, ast.Tuple))}
+            if names & want and getattr(st, 'value', None) is not None:
+                want |= {x.id for x in ast.walk(st.value) if isinstance(x, ast.Name)} - {'len', 'int', 'divmod', 'min', 'max'}
+                want |= names
+        for st in ast.walk(loop):
+            if isinstance(st, ast.If) and any(
+                    isinstance(y, ast.Name) and y.id in want
+                    for x in st.body + st.orelse for z in ast.walk(x)
+                    if isinstance(z, (ast.Assign, ast.AnnAssign, ast.AugAssign))
+                    for t in (z.targets if isinstance(z, ast.Assign) else [z.target]) for y in ast.walk(t)):
+                want |= {x.id for x in ast.walk(st.test) if isinstance(x, ast.Name)} - {'len', 'int', 'divmod', 'min', 'max'}
+    lists = {norm(x.value) for x in ast.walk(loop) if isinstance(x, ast.Subscript) and isinstance(x.slice, ast.Name)
+             and x.slice.id in idx_names}
+    want -= lists
+
+    def assigns_slice(stmts) -> bool:
+        for st in stmts:
+            for x in ast.walk(st):
+                tg = x.targets if isinstance(x, ast.Assign) else ([x.target] if isinstance(x, (ast.AnnAssign, ast.AugAssign)) else [])
+                if any(isinstance(y, ast.Name) and y.id in want for t in tg for y in ast.walk(t)):
+                    return True
+        return False
+
+    class _Stop(Exception):
+        pass
+
+    def run(stmts, env, n, rec):
+        for st in stmts:
+            if isinstance(st, ast.If):
+                if not assigns_slice(st.body) and not assigns_slice(st.orelse):
+                    # the branch does not touch the slice; still note a use of index / suffix inside it
+                    for sub in st.body + st.orelse:
+                        note(sub, env, n, rec)
+                    continue
+                run(st.body if ev(st.test, env, n) else st.orelse, env, n, rec)
+                continue
+            if isinstance(st, (ast.With, ast.Try)):
+                run(st.body, env, n, rec)
+                continue
+            if isinstance(st, (ast.For, ast.While)):
+                if assigns_slice([st]):
+                    raise _Unknown('nested loop over the slice')
+                continue
+            if isinstance(st, (ast.Break, ast.Continue, ast.Return)) :
+                raise _Stop()
+            note(st, env, n, rec)
+            tgt = val = None
+            if isinstance(st, ast.Assign) and len(st.targets) == 1:
+                tgt, val = st.targets[0], st.value
+            elif isinstance(st, ast.AnnAssign) and st.value is not None:
+                tgt, val = st.target, st.value
+            elif isinstance(st, ast.AugAssign):
+                tgt, val = st.target, ast.BinOp(left=st.target, op=st.op, right=st.value)
+            if isinstance(tgt, ast.Name) and tgt.id in want:
+                env[tgt.id] = ev(val, env, n)
+            elif isinstance(tgt, ast.Tuple) and all(isinstance(x, ast.Name) for x in tgt.elts) \
+                    and any(x.id in want for x in tgt.elts):
+                vals = ev(val, env, n) if isinstance(val, ast.Call) else tuple(ev(x, env, n) for x in val.elts)
+                for x, v in zip(tgt.elts, vals):
+                    env[x.id] = v
+
+    def note(st, env, n, rec):
+        if st is id_stmt:
+            rec['suffix'] = ev(suffix, env, n)
+        for x in ast.walk(st):
+            if isinstance(x, ast.Subscript) and isinstance(x.slice, ast.Name) and x.slice.id in idx_names \
+                    and isinstance(x.ctx, ast.Load) and 'index' not in rec:
+                rec['index'] = ev(x.slice, env, n)
+    try:
+        for n in range(1, 7):
+            env = {L0: 0}
+            for nm in sorted(want - {L0}):
+                d = single_def(nm)
+                if d is not None:
+                    try:
+                        env[nm] = ev(d, env, n)
+                    except _Unknown:
+                        pass
+            for k in range(3 * n + 2):
+                rec: dict = {}
+                try:
+                    run(loop.body, env, n, rec)
+                except _Stop:
+                    return False, 'the listing loop leaves an iteration early (break / continue) before the counters are advanced'
+                if rec.get('index') != k % n or rec.get('suffix') != k // n:
+                    return False, (f'with {n} stored period(s) the {k + 1}. listed Period is stored period {rec.get("index")} with id '
+                                   f'suffix L0+{rec.get("suffix")}; it has to be stored period {k % n} with suffix L0+{k // n} '
+                                   '(evaluation of the index / counter slice of the loop)')
+        return True, ''
+    except _Unknown as err:
+        return False, f'the index / pass counter arithmetic of the loop is not integer arithmetic over its own locals (`{err}`): unrecognised'
+    except ZeroDivisionError:
+        return False, 'the index arithmetic divides by zero'
+
+
 def r12_4(rep: Report) -> None:
     rid = 'R12.4'
     tree = rep.repo.tree(MC)
@@ -336,35 +493,7 @@ def r12_4(rep: Report) -> None:
             unique = False
             why = 'no `<period>.id = f"..._{<pass number>}"` in the loop'
             if suffix is not None and L0:
-                why = f'the suffix `{norm(suffix)}` is not the number of the pass being listed'
-                # (A) a counter that starts at L0 and is incremented exactly when the index wraps to 0
-                # (the counter is L0 itself or a local that is set to L0 once, before the loop)
-                cnt_name = None
-                if isinstance(suffix, ast.Name):
-                    sd = single_def(suffix.id)
-                    if suffix.id == L0 or (isinstance(sd, ast.Name) and sd.id == L0):
-                        cnt_name = suffix.id
-                if cnt_name is not None:
-                    for n in ast.walk(loop):
-                        if isinstance(n, ast.If) and any(i in norm(n.test) for i in idx_names) and any(
-                                isinstance(x, ast.AugAssign) and norm(x.target) == cnt_name and isinstance(x.op, ast.Add)
-                                and norm(x.value) == '1' for x in n.body):
-                            unique = True
-                # (B) L0 + q with (q, idx) = divmod(count, len(periods)) and count += 1 per iteration
-                if isinstance(suffix, ast.BinOp) and isinstance(suffix.op, ast.Add):
-                    parts = {norm(suffix.left), norm(suffix.right)}
-                    if L0 in parts:
-                        q = next(iter(parts - {L0}), None)
-                        for n in ast.walk(loop):
-                            if isinstance(n, ast.Assign) and isinstance(n.targets[0], ast.Tuple) \
-                                    and len(n.targets[0].elts) == 2 and isinstance(n.value, ast.Call) \
-                                    and call_name(n.value) == 'divmod' and len(n.value.args) == 2 \
-                                    and norm(n.targets[0].elts[0]) == q and norm(n.targets[0].elts[1]) in idx_names \
-                                    and norm(n.value.args[1]).startswith('len('):
-                                cnt = norm(n.value.args[0])
-                                if any(isinstance(x, ast.AugAssign) and norm(x.target) == cnt and isinstance(x.op, ast.Add)
-                                       and norm(x.value) == '1' for x in ast.walk(loop)):
-                                    unique = True
+                unique, why = _pass_counter_by_evaluation(fn, loop, idset[0], suffix, idx_names, L0, single_def)
             if unique:
                 rep.ok(rid, c, 'period ids unique per repetition')
             else:
